@@ -15,6 +15,7 @@ from __future__ import annotations
 import ast
 
 from ..repo import AnalysisError, ClassInfo, FuncInfo, body_of, own_nodes
+from .roles import machine_id_attr, schedule_attr
 
 MANIFEST = {
     "text": (
@@ -343,7 +344,7 @@ def analyse_eq(ctx, fi: FuncInfo) -> EqShape:
         if {sa[0], sb[0]} != {"self", "other"}:
             sh.problems.append((node, "both sides read the same object"))
             return
-        if sa[1] != sb[1] and {sa[1], sb[1]} not in ({"machine_id", "_machine_id"}, {"schedule", "_schedule"}):
+        if sa[1] != sb[1] and {sa[1], sb[1]} not in EQUIV:
             sh.problems.append(
                 (node, f"compares field {sa[1]!r} of one operand with field {sb[1]!r} of the other")
             )
@@ -512,8 +513,16 @@ def hash_fields(fi: FuncInfo) -> set[str]:
     return out
 
 
+EQUIV: list = [{"machine_id", "_machine_id"}, {"schedule", "_schedule"}]
+
+
 def run(ctx):
     chk = ctx.chk
+    # public property <-> its private backing field (found by role)
+    mid, sch = machine_id_attr(ctx), schedule_attr(ctx)
+    EQUIV[:] = [{"machine_id", mid}, {"schedule", sch}]
+    REQUIRED["ScheduledOperation"][2] = {"machine_id", mid}
+    REQUIRED["Schedule"] = [{"schedule", sch}]
     chk.rule("R15.a", "each __eq__ compares every content field named by C15 by == in a conjunction; class-level attributes do not count")
     chk.rule("R15.b", "fields read by __hash__ are a subset of the fields compared by __eq__")
     chk.rule("R15.c", "the isinstance guard tests the enclosing class; its failing branch returns False/NotImplemented")
